@@ -21,7 +21,7 @@ var (
 
 	// very basic regex for URL matching.
 	// Fragment portion is from https://build.fhir.org/references.html#literal
-	canonicalRegExp = regexp.MustCompile(`^(?P<url>[^|#]+)(\|(?P<version>[A-z0-9-_\.]+))?(#(?P<fragment>[A-z0-9-_\.]{1,64}))?`)
+	canonicalRegExp = regexp.MustCompile(`^(?P<url>[^|#]+)(\|(?P<version>[A-z0-9-_\.]+))?(#(?P<fragment>[A-z0-9-_\.]{1,64}))?$`)
 )
 
 // canonicalConfig is an internal struct for holding canonical information that
